@@ -431,6 +431,16 @@ def _capture_call(ev, state, node, name):
         for k in node.keywords:
             if k.arg is not None:
                 pairs.append((last, k.arg, k.value))
+        if node.args:
+            # positional arguments: bound through the callee's own signature (read from its source)
+            try:
+                from .contracts import find_function
+                fn_callee = find_function(name)[1]
+                params = [a.arg for a in fn_callee.args.posonlyargs + fn_callee.args.args]
+                for pname, anode in zip(params, node.args):
+                    pairs.append((last, pname, anode))
+            except Exception:
+                pass
     got = {}
     for fname, kw, vnode in pairs:
         try:
